@@ -30,6 +30,7 @@ def run(F, X, rep):
     r3(F, X, rep)
     t_id_type(F, X, rep)
     r4_dispatch_table(F, X, rep)
+    r5_unknown_topic(F, X, rep)
     w(F, X, rep)
     p(F, X, rep)
 
@@ -339,6 +340,31 @@ def r4_dispatch_table(F, X, rep):
         rep.ob(rid, n == 1, "cln_plugin::Builder", "Builder::%s is moved into its dispatch table once" % f, where=sorted(drains.get(f, [""]))[0], how="%d site(s)" % n,
                detail="" if n == 1 else "Builder::%s is drained at %d sites (%s): what was registered there %s" % (f, n, sorted(drains.get(f, ())), "never becomes dispatchable" if n == 0 else "is taken twice - the second takes nothing"))
     rep.anchor(rid, "registration maps of the builder that are moved into dispatch tables", len(drains), 3)
+
+
+def r5_unknown_topic(F, X, rep):
+    rid = "C17-R5"
+    rep.rule(rid, "a well-formed notification for a topic nobody subscribed to does not end the reader loop: no error is raised under `subscriptions.get(topic) == None` (the loop's end costs every pending and later request its reply)")
+    n = 0
+    bad = []
+    for b in F.code_bodies():
+        if "src/cln_plugin/" not in b.span.get("f", ""):
+            continue
+        for bi in sorted(b.reachable):
+            facts = None
+            for s in b.blocks[bi]["s"]:
+                if not (s["k"] == "assign" and s["rv"]["k"] == "agg" and s["rv"].get("variant") == "Err" and canon(s["rv"].get("adt") or "").endswith("Result")):
+                    continue
+                if facts is None:
+                    facts = lib.variant_facts(b, X, bi)
+                for fe, truth, _c in facts:
+                    if truth == ("None",) and any(y[0] == "call" and y[1].endswith("HashMap::get") and any(z[0] == "field" and z[1] == "subscriptions" for z in walk(y)) for y in walk(strip(fe))):
+                        bad.append((b, s))
+    subs = [c for b in F.code_bodies() if "src/cln_plugin/" in b.span.get("f", "") for c in b.calls
+            if c.name.endswith("HashMap::get") and c.args and any(z[0] == "field" and z[1] == "subscriptions" for z in walk(strip(X.operand(b, c.args[0]))))]
+    rep.anchor(rid, "lookup of the notification topic in the subscriptions", len(subs), 1)
+    rep.ob(rid, not bad, "cln_plugin", "unknown topic is not an error", where=loc(bad[0][1]["sp"]) if bad else (subs[0].loc if subs else ""), how="no Err under subscriptions.get(..) == None",
+           detail="" if not bad else "a notification without subscriber makes dispatch fail at %s: the driver loop ends, requests in flight lose their reply and later ones are never read" % loc(bad[0][1]["sp"]))
 
 
 def t_id_type(F, X, rep):
